@@ -184,11 +184,12 @@ def main(argv: list[str] | None = None) -> int:
 
     floor = getattr(mod, "FLOOR", {}).get(tier, 2)
     nontriv = len(m["nontrivial"])
-    if nontriv < floor:
-        m["inconclusive"].append(f"only {nontriv} distinct non-trivial cases observed (floor {floor})")
-    for name in getattr(mod, "REQUIRED_COUNTERS", []):
-        if m["counters"].get(name, 0) == 0:
-            m["inconclusive"].append(f"deciding monitor counter '{name}' is zero")
+    if not args.replay:   # a replay re-runs one recorded case: coverage floors do not apply to it
+        if nontriv < floor:
+            m["inconclusive"].append(f"only {nontriv} distinct non-trivial cases observed (floor {floor})")
+        for name in getattr(mod, "REQUIRED_COUNTERS", []):
+            if m["counters"].get(name, 0) == 0:
+                m["inconclusive"].append(f"deciding monitor counter '{name}' is zero")
 
     counters = dict(sorted(m["counters"].items()))
     coverage = {
